@@ -86,3 +86,13 @@ package sherpa
 //@   requires s != nil && s.configuration != nil
 //@   ensures s.configuration.BaseProxyConfig.ReadTimeout != 0 ==> res == s.configuration.BaseProxyConfig.ReadTimeout
 //@   ensures s.configuration.BaseProxyConfig.ReadTimeout == 0 ==> res == 60000000000
+
+// ---- C19, engine scope: per request, the engine counts one request and one success/failure record per ATTEMPT.
+// Conservation total == successes + failures therefore needs exactly one attempt per request.
+//@ func (s *Service) ProxyRequestToEndpointsWithRetry
+//@   property C19
+//@   replay proxy_engine_stats_conservation@internal/adapter/proxy
+//@   requires s != nil && s.retryHandler != nil && r != nil && r.URL != nil && stats != nil && rlog != nil && allNonNil(endpoints) && uniqueNames(endpoints) && !ghost(w).started
+//@   modifies *
+//@   ensures reqCount == old(reqCount) + 1
+//@   ensures recSuccess + recFailure - (old(recSuccess) + old(recFailure)) == reqCount - old(reqCount)
